@@ -986,7 +986,8 @@ class PhaseField(_Simu):
         except AttributeError:
             resumeIter = ""
 
-        resumeIter += self.__resumeIter
+        # empty until Results_Set_Iteration_Summary has been called
+        resumeIter += getattr(self, "_PhaseField__resumeIter", "")
 
         return resumeIter
 
